@@ -7,6 +7,9 @@
 //!   C08 json <file> <mutation>     corrupted NDJSON through arrow-json: schema inference, reader with inferred
 //!                                  and with a fixed nested schema (strict and non-strict)
 //!   C08 jsonraw <hex>
+//!   C08 jsongrid <container>.<parent nullable><child nullable>.<leaf>.<struct mode>.<batch size> <rows>
+//!                                  nested-nullability grid: rows m(issing) n(ull) x(child null) e(mpty) a(present) t(middle null)
+//!   C08 jsonty <type id> <hex of a JSON value>   one value of any JSON kind into a column of any supported type
 //!   C08 ipcz <file> <mutation>     corrupted LZ4 / ZSTD compressed IPC stream through StreamReader
 //!   C08 ipczraw <hex>
 //! Every Ok batch is validated with `ArrayData::validate_full`.  Every case runs in a worker process
@@ -164,6 +167,179 @@ fn read_json(bytes: Vec<u8>) -> String {
     verdict
 }
 
+// ------------------------------------------------------------------ JSON nested-nullability grid
+
+fn grid_leaf(l: &str) -> (DataType, &'static str) {
+    match l {
+        "u" => (DataType::Utf8, "\"x\""),
+        "b" => (DataType::Boolean, "true"),
+        "d" => (DataType::Decimal128(5, 1), "\"1.5\""),
+        "v" => (DataType::Utf8View, "\"a string view longer than 12\""),
+        "f" => (DataType::FixedSizeBinary(2), "\"00ff\""),
+        _ => (DataType::Int32, "1"),
+    }
+}
+
+/// `(data type of column s, renderer of the value of s for a row letter)`
+fn grid_schema(container: &str, cn: bool, leaf: &str, pn: bool) -> DataType {
+    let (lt, _) = grid_leaf(leaf);
+    let child = |name: &str| std::sync::Arc::new(Field::new(name, lt.clone(), cn));
+    match container {
+        "li" => DataType::List(child("item")),
+        "ll" => DataType::LargeList(child("item")),
+        "lv" => DataType::ListView(child("item")),
+        "fl" => DataType::FixedSizeList(child("item"), 1),
+        "mp" => DataType::Map(
+            std::sync::Arc::new(Field::new(
+                "entries",
+                DataType::Struct(vec![Field::new("keys", DataType::Utf8, false), Field::new("values", lt.clone(), cn)].into()),
+                false,
+            )),
+            false,
+        ),
+        "s2" => DataType::Struct(vec![Field::new("t", DataType::Struct(vec![Field::new("a", lt.clone(), cn)].into()), pn)].into()),
+        _ => DataType::Struct(vec![Field::new("a", lt.clone(), cn)].into()),
+    }
+}
+
+fn grid_value(container: &str, leaf: &str, list_mode: bool, letter: char) -> Option<String> {
+    let v = grid_leaf(leaf).1;
+    let (null_child, empty, present, mid_null): (String, String, String, String) = match container {
+        "li" | "ll" | "lv" | "fl" => ("[null]".into(), "[]".into(), format!("[{}]", v), "[null]".into()),
+        "mp" => ("{\"k\":null}".into(), "{}".into(), format!("{{\"k\":{}}}", v), "{\"k\":null}".into()),
+        "s2" if list_mode => ("[[null]]".into(), "[[]]".into(), format!("[[{}]]", v), "[null]".into()),
+        "s2" => ("{\"t\":{\"a\":null}}".into(), "{\"t\":{}}".into(), format!("{{\"t\":{{\"a\":{}}}}}", v), "{\"t\":null}".into()),
+        _ if list_mode => ("[null]".into(), "[]".into(), format!("[{}]", v), "[null]".into()),
+        _ => ("{\"a\":null}".into(), "{}".into(), format!("{{\"a\":{}}}", v), "{\"a\":null}".into()),
+    };
+    match letter {
+        'm' => None,
+        'n' => Some("null".into()),
+        'x' => Some(null_child),
+        'e' => Some(empty),
+        't' => Some(mid_null),
+        _ => Some(present),
+    }
+}
+
+fn read_jsongrid(spec: &str, rows: &str) -> String {
+    let f: Vec<&str> = spec.split('.').collect();
+    if f.len() < 5 {
+        return "bad-case".into();
+    }
+    let (container, nn, leaf, mode, batch) = (f[0], f[1], f[2], f[3], f[4].parse::<usize>().unwrap_or(1024).max(1));
+    let pn = nn.starts_with('1');
+    let cn = nn.ends_with('1');
+    let list_mode = mode == "l";
+    // for s2 the outer struct is always nullable and `pn` is the nullability of the middle struct
+    let s_nullable = if container == "s2" { true } else { pn };
+    let schema = Schema::new(vec![Field::new("s", grid_schema(container, cn, leaf, pn), s_nullable), Field::new("z", DataType::Int32, true)]);
+    let mut doc = String::new();
+    for (i, c) in rows.chars().enumerate() {
+        let sv = grid_value(container, leaf, list_mode, c);
+        if list_mode {
+            match sv {
+                Some(v) => doc.push_str(&format!("[{},{}]\n", v, i)),
+                None => doc.push_str(&format!("[null,{}]\n", i)),
+            }
+        } else {
+            match sv {
+                Some(v) => doc.push_str(&format!("{{\"s\":{},\"z\":{}}}\n", v, i)),
+                None => doc.push_str(&format!("{{\"z\":{}}}\n", i)),
+            }
+        }
+    }
+    let mode = if list_mode { arrow_json::StructMode::ListOnly } else { arrow_json::StructMode::ObjectOnly };
+    let r = arrow_json::ReaderBuilder::new(std::sync::Arc::new(schema)).with_batch_size(batch).with_struct_mode(mode).build(Cursor::new(doc.into_bytes()));
+    match r {
+        Err(_) => "ERR".into(),
+        Ok(r) => match drain(r) {
+            Ok(n) => format!("ok:{}", n),
+            Err(e) => e,
+        },
+    }
+}
+
+const JSONTY_TYPES: usize = 40;
+fn jsonty_type(id: usize) -> DataType {
+    use arrow_schema::IntervalUnit;
+    let item = |t: DataType| std::sync::Arc::new(Field::new("item", t, true));
+    match id {
+        0 => DataType::Null,
+        1 => DataType::Boolean,
+        2 => DataType::Int8,
+        3 => DataType::Int64,
+        4 => DataType::UInt8,
+        5 => DataType::UInt64,
+        6 => DataType::Float16,
+        7 => DataType::Float32,
+        8 => DataType::Float64,
+        9 => DataType::Utf8,
+        10 => DataType::LargeUtf8,
+        11 => DataType::Utf8View,
+        12 => DataType::Binary,
+        13 => DataType::LargeBinary,
+        14 => DataType::BinaryView,
+        15 => DataType::FixedSizeBinary(2),
+        16 => DataType::FixedSizeBinary(0),
+        17 => DataType::Decimal32(5, 1),
+        18 => DataType::Decimal64(10, 2),
+        19 => DataType::Decimal128(20, 3),
+        20 => DataType::Decimal256(40, -2),
+        21 => DataType::Date32,
+        22 => DataType::Date64,
+        23 => DataType::Time32(TimeUnit::Second),
+        24 => DataType::Time64(TimeUnit::Nanosecond),
+        25 => DataType::Timestamp(TimeUnit::Second, None),
+        26 => DataType::Timestamp(TimeUnit::Nanosecond, Some("+05:30".into())),
+        27 => DataType::Duration(TimeUnit::Millisecond),
+        28 => DataType::Interval(IntervalUnit::DayTime),
+        29 => DataType::List(item(DataType::Int32)),
+        30 => DataType::LargeList(item(DataType::Utf8)),
+        31 => DataType::ListView(item(DataType::Int32)),
+        32 => DataType::FixedSizeList(item(DataType::Int32), 2),
+        33 => DataType::Struct(vec![Field::new("a", DataType::Int32, true)].into()),
+        34 => DataType::Map(
+            std::sync::Arc::new(Field::new(
+                "entries",
+                DataType::Struct(vec![Field::new("keys", DataType::Utf8, false), Field::new("values", DataType::Int32, true)].into()),
+                false,
+            )),
+            false,
+        ),
+        35 => DataType::RunEndEncoded(std::sync::Arc::new(Field::new("run_ends", DataType::Int32, false)), std::sync::Arc::new(Field::new("values", DataType::Utf8, true))),
+        36 => DataType::Dictionary(Box::new(DataType::Int8), Box::new(DataType::Utf8)),
+        37 => DataType::Timestamp(TimeUnit::Microsecond, Some("UTC".into())),
+        38 => DataType::UInt16,
+        _ => DataType::Int32,
+    }
+}
+
+fn read_jsonty(id: usize, value: &[u8]) -> String {
+    let t = jsonty_type(id % JSONTY_TYPES);
+    let mut out = String::new();
+    for (strict, coerce) in [(false, false), (false, true), (true, false)] {
+        let schema = Schema::new(vec![Field::new("v", t.clone(), true)]);
+        let mut doc = b"{\"v\":1}\n{\"v\":".to_vec();
+        doc.extend_from_slice(value);
+        doc.extend_from_slice(b"}\n{\"v\":null}\n");
+        let r = arrow_json::ReaderBuilder::new(std::sync::Arc::new(schema)).with_batch_size(2).with_strict_mode(strict).with_coerce_primitive(coerce).build(Cursor::new(doc));
+        let a = match r {
+            Err(_) => "ERR".to_string(),
+            Ok(r) => match drain(r) {
+                Ok(n) => format!("ok:{}", n),
+                Err(e) if e.starts_with("INVALID") => return e,
+                Err(_) => "ERR".to_string(),
+            },
+        };
+        if !out.is_empty() {
+            out.push('/');
+        }
+        out.push_str(&a);
+    }
+    out
+}
+
 // ------------------------------------------------------------------ compressed IPC
 
 fn ipc_batch() -> RecordBatch {
@@ -301,6 +477,14 @@ fn run_case(line: &str) -> String {
             let spec = arg(3).to_string();
             guarded(move || read_json(mutate(JSON_FILES[id % 3].as_bytes().to_vec(), &spec, &|i| JSON_FILES[i % 3].as_bytes().to_vec())))
         }
+        "jsongrid" => {
+            let (spec, rows) = (arg(2).to_string(), arg(3).to_string());
+            guarded(move || read_jsongrid(&spec, &rows))
+        }
+        "jsonty" => {
+            let b = unhex(arg(3));
+            guarded(move || read_jsonty(id, &b))
+        }
         "jsonraw" => {
             let b = unhex(arg(2));
             guarded(move || read_json(b))
@@ -417,6 +601,54 @@ fn sweep(args: &Args, rng: &mut Rng) -> Vec<(String, String, usize)> {
     out
 }
 
+/// dense deterministic blocks (run in every tier): nested nullability x row mixes, and value kind x column type
+fn dense_json() -> Vec<(String, String, usize)> {
+    let mut out = vec![];
+    let letters = ['m', 'n', 'x', 'e', 'a', 't'];
+    let mut seqs: Vec<String> = vec![];
+    for a in letters {
+        seqs.push(a.to_string());
+        for b in letters {
+            seqs.push(format!("{}{}", a, b));
+            for c in letters {
+                seqs.push(format!("{}{}{}", a, b, c));
+            }
+        }
+    }
+    let mut configs: Vec<(&str, &str)> = vec![];
+    for c in ["st", "s2", "li", "ll", "lv", "fl", "mp"] {
+        configs.push((c, "i"));
+    }
+    for l in ["u", "b", "d", "v", "f"] {
+        configs.push(("st", l));
+    }
+    for (c, l) in configs {
+        for nn in ["00", "01", "10", "11"] {
+            for mode in ["o", "l"] {
+                for batch in ["1", "3"] {
+                    for rows in &seqs {
+                        out.push((
+                            format!("C08 jsongrid {}.{}.{}.{}.{} {}", c, nn, l, mode, batch, rows),
+                            format!("op:jsongrid grid:{}.{}.{} nt", c, nn, mode),
+                            rows.len() * 24,
+                        ));
+                    }
+                }
+            }
+        }
+    }
+    let values: [&str; 22] = [
+        "null", "true", "false", "0", "1", "-1", "1.5", "-0.0", "1e400", "255", "256", "99999999999999999999999999", "\"\"", "\"x\"", "\"00ff\"", "\"0\"", "\"1.5\"",
+        "\"2024-01-31T10:20:30\"", "[]", "[1,2]", "{}", "{\"a\":1}",
+    ];
+    for t in 0..JSONTY_TYPES {
+        for v in values {
+            out.push((format!("C08 jsonty f{} {}", t, hex(v.as_bytes())), format!("op:jsonty ty:{} nt", t), v.len() + 20));
+        }
+    }
+    out
+}
+
 fn main() {
     let argv: Vec<String> = std::env::args().collect();
     if argv.get(1).map(|s| s.as_str()) == Some("worker") {
@@ -435,7 +667,9 @@ fn main() {
     } else {
         let mut rng = Rng::new(args.seed ^ 0xC08C);
         let only = std::env::var("C08_SWEEP").unwrap_or_default();
-        for (line, tags, len) in sweep(&args, &mut rng) {
+        let mut all = dense_json();
+        all.extend(sweep(&args, &mut rng));
+        for (line, tags, len) in all {
             if !only.is_empty() && !line.starts_with(&format!("C08 {} ", only)) {
                 continue;
             }
